@@ -107,6 +107,12 @@ def mk_items(rng, specs):
                                                                              rng.randrange(1000), rng.randrange(256))
                 it.bare = b'$' + with_checksum(body)
                 it.line = it.bare if it.tb is None else b'\\' + it.tb + b'\\' + it.bare
+    # now and then some AIS sentences have a WRONG NMEA checksum: still sentences (flagged invalid), still members of their group
+    if rng.random() < 0.2:
+        for it in items:
+            if rng.random() < 0.35 and it.bare.startswith(b'!'):
+                it.bare = it.bare[:-2] + format((int(it.bare[-2:], 16) + 1 + rng.randrange(254)) % 256, '02X').encode()
+                it.line = it.bare if it.tb is None else b'\\' + it.tb + b'\\' + it.bare
     # now and then all members of a group carry the SAME AIS sentence (one message relayed by several receivers): the tag
     # blocks differ, the sentence bodies are equal (and compare equal: NMEASentence.__eq__ looks at the AIS fields only)
     if rng.random() < 0.25:
